@@ -34,8 +34,19 @@ HasProvider(s) == s.net.provIngress \/ s.net.provGateway
 N(s) == Len(s.plan)
 
 \* workload as the controller finder sees it (pkg/util/controller_finder.go getKruiseCloneSet)
+IsDeployment(s) == s.wl.exists /\ s.wl.kind = "Deployment"
 WlCanaryRev(s)  == s.wl.updRev
-WlInRollback(s) == s.wl.inprog /\ s.wl.stableRev = s.wl.updRev /\ s.wl.stUpdated # s.wl.stRepl /\ s.wl.kind # "DaemonSet"
+\* rollback as the finder sees it: CloneSet-like kinds by revisions and counters; a (canary-style) Deployment when the template
+\* equals the stable ReplicaSet's again
+WlInRollback(s) ==
+  IF IsDeployment(s) THEN s.wl.inprog /\ s.wl.specRev = s.wl.stableRev
+  ELSE s.wl.inprog /\ s.wl.stableRev = s.wl.updRev /\ s.wl.stUpdated # s.wl.stRepl /\ s.wl.kind # "DaemonSet"
+\* Workload.PodTemplateHash: the update revision; for a canary-style Deployment the hash of the canary Deployment's (oldest,
+\* non-empty) ReplicaSet, known only while the release is in progress and not rolled back
+WlPodHash(s) ==
+  IF IsDeployment(s)
+  THEN IF s.wl.inprog /\ ~WlInRollback(s) /\ s.wl.cd.n > 0 /\ ~s.wl.cd.deleting /\ s.wl.cd.rsSpec > 0 THEN s.wl.cd.rev ELSE 0
+  ELSE s.wl.updRev
 
 EmptySub(ro) == [ro EXCEPT !.hasSub = FALSE, !.step = 0, !.state = "", !.next = 0, !.fstep = "", !.hashOk = FALSE,
                            !.hashSet = FALSE, !.canaryRev = 0, !.stableRev = 0, !.podHash = 0, !.fresh = FALSE, !.rid = ""]
@@ -53,7 +64,7 @@ GoneBr == [exists |-> FALSE, deleting |-> FALSE, finalizer |-> FALSE, planOk |->
 \* the rollout-id the Rollout controller derives from the workload (rollout_status.go getRolloutID)
 \* CloneSet / DaemonSet use the hash suffix of the update revision, StatefulSet-like workloads its full name
 RidName(kind, rev) ==
-  IF kind \in {"StatefulSet", "AdvStatefulSet", "DaemonSet"}   \* (the StatefulSet-like finder also picks up DaemonSets)
+  IF kind \in {"StatefulSet", "AdvStatefulSet", "DaemonSet"}   \* (the StatefulSet-like finder also picks up DaemonSets; a Deployment's hash is projected as "v<rev>")
   THEN CASE rev = 1 -> "demo-v1" [] rev = 2 -> "demo-v2" [] rev = 3 -> "demo-v3" [] OTHER -> ""
   ELSE CASE rev = 1 -> "v1" [] rev = 2 -> "v2" [] rev = 3 -> "v3" [] OTHER -> ""
 WlRolloutID(s) == IF s.wl.rid # "" THEN s.wl.rid ELSE RidName(s.wl.kind, WlCanaryRev(s))
@@ -182,7 +193,7 @@ DoCanaryUpgrade(s) ==
   IF ~r.done THEN [s |-> r.s, done |-> FALSE]
   ELSE IF ~s.br.hashOk \/ ~s.br.obsGenOk THEN [s |-> s, done |-> FALSE]
   ELSE IF s.br.bstate # "Ready" \/ s.br.batch + 1 < s.ro.step THEN [s |-> s, done |-> FALSE]
-  ELSE [s |-> [s EXCEPT !.ro.podHash = s.wl.updRev], done |-> TRUE]
+  ELSE [s |-> [s EXCEPT !.ro.podHash = WlPodHash(s)], done |-> TRUE]
 
 \* doCanaryJump (after fix b0b3f0b): TRUE iff the user-patched nextStepIndex differs from the natural one
 JumpWanted(s) == s.ro.next # NextIdx(s, s.ro.step) /\ s.ro.next > 0
@@ -203,7 +214,7 @@ RunCanaryBody(sIn) ==
       \* syncBatchRelease: propagate the rollout-id to the BatchRelease
       s1 == IF s0.br.exists /\ s0.ro.rid # s0.br.rid
             THEN [s0 EXCEPT !.br.rid = s0.ro.rid, !.br.obsGenOk = FALSE, !.br.hashOk = FALSE] ELSE s0
-      s  == IF s1.ro.podHash = 0 THEN [s1 EXCEPT !.ro.podHash = s1.wl.updRev] ELSE s1
+      s  == IF s1.ro.podHash = 0 THEN [s1 EXCEPT !.ro.podHash = WlPodHash(s1)] ELSE s1
   IN
   IF JumpWanted(s) THEN DoCanaryJump(s)
   ELSE
@@ -411,7 +422,7 @@ RoStep(s0) ==
                    THEN [sE EXCEPT !.ro.phase = "Progressing", !.ro.reason = "Initializing", !.ro.condFresh = TRUE, !.ro.succeeded = ""]
                    ELSE IF ~sE.ro.hasSub
                    THEN [sE EXCEPT !.ro = [sE.ro EXCEPT !.hasSub = TRUE, !.step = N(sE), !.next = -1, !.state = "Completed", !.hashOk = TRUE, !.hashSet = TRUE,
-                                                        !.canaryRev = WlCanaryRev(sE), !.stableRev = sE.wl.stableRev, !.podHash = sE.wl.updRev,
+                                                        !.canaryRev = WlCanaryRev(sE), !.stableRev = sE.wl.stableRev, !.podHash = WlPodHash(sE),
                                                         !.rid = WlRolloutID(sE)]]
                    ELSE sE
               [] sE.ro.phase = "Disabled" -> IF ~sE.user.disabled THEN [sE EXCEPT !.ro.phase = "Healthy"] ELSE sE
@@ -452,6 +463,75 @@ BrReadyNow(s) ==
   /\ ReadyPred(s.wl.stUpdated, s.wl.stUpdRdy, BrPlanned(s, s.br.batch), s.br.thrKind, s.br.thrVal)
   /\ (s.br.rid = "" \/ s.wl.labelled >= BrPlanned(s, s.br.batch))
 
+\* derived fields of the Deployment projection (harness/sim/depenv.go Project): what may run at the new revision
+DepDerive(s) ==
+  IF IsDeployment(s) /\ s.wl.style = "canary"
+  THEN [s EXCEPT !.wl.asked = IF s.wl.paused THEN s.wl.cd.replicas ELSE s.wl.R, !.wl.kval = s.wl.cd.replicas]
+  ELSE s
+
+\* ------------------------------------------------ canary style (Deployment): control/canarystyle
+CanaryStyle(s) == IsDeployment(s) /\ s.wl.style = "canary"
+\* BuildCanaryController: the newest live Deployment owned by the BatchRelease whose template equals the stable one's
+CanaryFound(s) == s.wl.cd.n > 0 /\ ~s.wl.cd.deleting /\ s.wl.cd.rev = s.wl.specRev
+NoCanary == [n |-> 0, replicas |-> 0, pods |-> 0, avail |-> 0, finalizer |-> FALSE, deleting |-> FALSE, rev |-> 0, obs |-> TRUE, rs |-> 0, rsSpec |-> 0]
+
+\* SyncWorkloadInformation (canarystyle/control_plane.go)
+BrEventCanary(s) ==
+  IF s.br.deleting THEN "normal"
+  ELSE IF ~s.wl.exists THEN "gone"
+  ELSE IF ~s.wl.genOk THEN "unstable"
+  ELSE IF s.wl.stRepl = s.wl.stUpdated THEN "normal"
+  ELSE IF s.br.obsR # -1 /\ s.wl.R # s.br.obsR THEN "scaling"
+  ELSE IF s.br.updRev # 0 /\ s.wl.updRev # s.br.updRev THEN "revision"
+  ELSE "unknown"
+
+BrPlannedC(s) == PlannedOf(s.br.plan[s.br.batch + 1], s.wl.R)
+\* EnsureBatchPodsReadyAndLabeled labels the canary pods first and then checks the batch
+LabelledAfterC(s) == IF s.br.rid = "" THEN s.wl.labelled ELSE Max(s.wl.labelled, Min(s.wl.n[s.wl.specRev], BrPlannedC(s)))
+BrReadyCanary(s) ==
+  /\ ReadyPred(s.wl.cd.pods, s.wl.cd.avail, BrPlannedC(s), s.br.thrKind, s.br.thrVal)
+  /\ (s.br.rid = "" \/ LabelledAfterC(s) >= BrPlannedC(s))
+\* guards shared by UpgradeBatch / EnsureBatchPodsReadyAndLabeled: [skip, error]
+CanaryGuard(s) == IF s.wl.R = 0 THEN "skip" ELSE IF ~CanaryFound(s) \/ ~s.wl.cd.obs THEN "error" ELSE "go"
+
+BrExecCanary(sR) ==
+  LET fin(x) == DepDerive([x EXCEPT !.br.obsGenOk = TRUE]) IN
+  CASE sR.br.phase = "Preparing" ->
+         \* Initialize: control annotation on the stable Deployment (metadata only), then the canary Deployment (created with
+         \* 0 replicas: that call reports an error so that the informer can catch up), then the revisions are recorded
+         LET a == IF sR.wl.ctrl THEN sR ELSE [sR EXCEPT !.wl.ctrl = TRUE] IN
+         IF CanaryFound(a)
+         THEN fin([a EXCEPT !.br.phase = "Progressing", !.br.obsR = a.wl.R, !.br.stableRev = 0, !.br.updRev = a.wl.cd.rev])
+         ELSE fin([a EXCEPT !.wl.cd = [NoCanary EXCEPT !.n = a.wl.cd.n + 1, !.finalizer = TRUE, !.rev = a.wl.specRev, !.obs = FALSE]])
+    [] sR.br.phase = "Progressing" ->
+         CASE sR.br.bstate \in {"", "Upgrading"} ->
+                LET g == CanaryGuard(sR) IN
+                IF g = "error" THEN fin([sR EXCEPT !.br.bstate = "Upgrading"])
+                ELSE IF g = "skip" \/ sR.wl.cd.replicas >= BrPlannedC(sR) THEN fin([sR EXCEPT !.br.bstate = "Verifying"])
+                ELSE fin([sR EXCEPT !.br.bstate = "Verifying", !.wl.cd.replicas = BrPlannedC(sR), !.wl.cd.obs = FALSE])
+           [] sR.br.bstate = "Verifying" ->
+                LET g == CanaryGuard(sR) IN
+                IF g = "skip" \/ (g = "go" /\ BrReadyCanary(sR)) THEN fin([sR EXCEPT !.br.bstate = "Ready"])
+                ELSE fin([sR EXCEPT !.br.bstate = "Upgrading"])
+           [] sR.br.bstate = "Ready" ->
+                LET g == CanaryGuard(sR) IN
+                IF ~(g = "skip" \/ (g = "go" /\ BrReadyCanary(sR))) THEN fin([sR EXCEPT !.br.bstate = "Upgrading"])
+                ELSE IF sR.br.partition >= 0 /\ sR.br.partition <= sR.br.batch THEN fin(sR)
+                ELSE fin([sR EXCEPT !.br.batch = sR.br.batch + 1, !.br.bstate = "Upgrading"])
+           [] OTHER -> fin(sR)
+    [] sR.br.phase = "Finalizing" ->
+         \* Finalize: release the stable Deployment (un-paused iff batchPartition is nil), wait for the promotion when the
+         \* policy says so, then drop the canary Deployments' finalizers (they are collected with the BatchRelease)
+         IF ~sR.wl.exists THEN fin([sR EXCEPT !.br.phase = "Completed"])
+         ELSE
+         LET pause == sR.br.partition # -1
+             rel == [sR EXCEPT !.wl.ctrl = FALSE, !.wl.paused = pause, !.wl.genOk = (sR.wl.paused = pause /\ sR.wl.genOk)]
+             waitErr == sR.br.policy = "WaitResume" /\ (rel.wl.paused \/ rel.wl.stRepl # rel.wl.stUpdated
+                                                          \/ MaxUnavailableOf(rel.wl) + rel.wl.stAvail < rel.wl.stRepl)
+         IN  IF waitErr THEN fin(rel)
+             ELSE fin([rel EXCEPT !.br.phase = "Completed", !.wl.cd.finalizer = FALSE])
+    [] OTHER -> fin(sR)
+
 BrStep(s0) ==
   IF ~s0.br.exists THEN s0
   ELSE
@@ -462,7 +542,8 @@ BrStep(s0) ==
       st0 == IF sA.br.phase = "" THEN [sA EXCEPT !.br.phase = "Preparing", !.br.obsR = -1] ELSE sA     \* getInitializedStatus
       wlGone == ~st0.wl.exists
       \* SyncWorkloadInformation
-      ev == IF st0.br.deleting THEN "normal"
+      ev == IF CanaryStyle(st0) THEN BrEventCanary(st0)
+            ELSE IF st0.br.deleting THEN "normal"
             ELSE IF wlGone THEN "gone"
             ELSE IF ~st0.wl.genOk THEN "unstable"
             ELSE IF st0.wl.stRepl = st0.wl.stUpdated THEN "normal"
@@ -489,13 +570,19 @@ BrStep(s0) ==
             ELSE [s |-> st0, stop |-> FALSE]
       \* refreshStatus
       sR == LET x == sp.s IN
-            LET y == IF x.wl.exists /\ ~x.br.deleting THEN [x EXCEPT !.br.stUpd = x.wl.stUpdated, !.br.stUpdRdy = x.wl.stUpdRdy] ELSE x
+            LET y == IF ~(x.wl.exists /\ ~x.br.deleting) THEN x
+                     ELSE IF CanaryStyle(x)
+                          THEN (IF CanaryFound(x) THEN [x EXCEPT !.br.stUpd = x.wl.cd.pods, !.br.stUpdRdy = x.wl.cd.avail]
+                                ELSE [x EXCEPT !.br.stUpd = 0, !.br.stUpdRdy = 0])
+                          ELSE [x EXCEPT !.br.stUpd = x.wl.stUpdated, !.br.stUpdRdy = x.wl.stUpdRdy]
                 z == IF sA.br.phase = "" THEN [y EXCEPT !.br.hashOk = TRUE] ELSE y     \* an empty observed hash is initialised
             IN  [z EXCEPT !.br.obsRid = z.br.rid]
       changed == [sR.br EXCEPT !.obsGenOk = TRUE] # [sA.br EXCEPT !.obsGenOk = TRUE]
       fin(x) == [x EXCEPT !.br.obsGenOk = TRUE]                           \* updateStatus: observedGeneration := generation
   IN
   IF sp.stop \/ changed THEN fin(sR)
+  ELSE
+  IF CanaryStyle(sR) THEN BrExecCanary(sR)
   ELSE
   CASE sR.br.phase = "Preparing" ->
          \* Initialize: claim the workload (control-info annotation, partition 100%, un-paused), record revisions
@@ -597,9 +684,23 @@ WebhookHolds(s) ==
   /\ s.ro.exists /\ ~s.ro.deleting /\ s.ro.phase # "Disabled"
   /\ (HasProvider(s) /\ s.wl.kind = "CloneSet" => s.wl.stRepl = s.wl.stUpdated)   \* only handleCloneSet checks for a single revision
 
+\* handleDeployment (canary style): while in progress every update is (re-)paused; otherwise the Deployment is put on hold
+\* (paused, in-progressing marker, stable-revision label) iff an active Rollout matches, it has an active ReplicaSet
+\* and, with traffic routing, exactly one
+ReleaseDep(s, rev) ==
+  LET s1 == [s EXCEPT !.user.rev = rev, !.wl.specRev = rev, !.wl.updRev = rev, !.wl.genOk = FALSE]
+      active == Cardinality({r \in 1..3 : s.wl.rsSpec[r] > 0})
+  IN  IF rev = s.wl.specRev THEN s
+      ELSE IF s.wl.inprog THEN DepDerive([s1 EXCEPT !.wl.paused = TRUE])
+      ELSE IF /\ s.wl.R > 0 /\ s.ro.exists /\ ~s.ro.deleting /\ s.ro.phase # "Disabled"
+              /\ active >= 1 /\ (HasProvider(s) => active = 1)
+           THEN DepDerive([s1 EXCEPT !.wl.paused = TRUE, !.wl.inprog = TRUE, !.wl.stableLabel = s.wl.stableRev])
+           ELSE s1
+
 Release(s, rev) ==
   LET s1 == [s EXCEPT !.user.rev = rev, !.wl.specRev = rev, !.wl.genOk = FALSE] IN
-  IF rev = s.wl.specRev THEN s
+  IF IsDeployment(s) THEN ReleaseDep(s, rev)
+  ELSE IF rev = s.wl.specRev THEN s
   ELSE IF WebhookHolds(s) THEN [s1 EXCEPT !.wl.ktype = HoldKnob(s).ktype, !.wl.kval = HoldKnob(s).kval, !.wl.inprog = TRUE] ELSE s1
 
 JumpActs == {"user.jump:1", "user.jump:2", "user.jump:3", "user.jump:4", "user.jump:5", "user.jump:0", "user.jump:-2"}
@@ -626,8 +727,12 @@ UserActs == {"user.approve", "user.pause", "user.resume", "user.disable", "user.
 EnvActs  == {"env.observe", "env.update", "env.ready", "env.unready", "env.scale"}
 
 Modelled(p, a) ==
-  /\ p.wl.exists => (p.wl.kind \in PartitionKinds /\ p.wl.style = "partition")
-  /\ a \in {"ro", "br", "tick"} \cup EnvActs \cup UserActs
+  \/ /\ p.wl.exists => (p.wl.kind \in PartitionKinds /\ p.wl.style = "partition")
+     /\ a \in {"ro", "br", "tick"} \cup EnvActs \cup UserActs
+  \* Deployment, canary style: the controllers, time and the user (the simulated native Deployment / ReplicaSet
+  \* controllers of the harness are environment and not modelled)
+  \/ /\ p.wl.exists /\ p.wl.kind = "Deployment" /\ p.wl.style = "canary"
+     /\ a \in {"ro", "br", "tick"} \cup UserActs /\ p.wl.cd.n <= 1
 
 \* successor set of one action (singletons for the deterministic controller reconciles)
 \* Deliberate deviation: whether a reconcile that changes nothing but status MESSAGES writes the status is not modelled
